@@ -1,7 +1,8 @@
 import Mustache.Driver.World
 /-! `driver worldcontract`: runs the world model over an op file and prints the 0-based index of the first op line that
     leaves the documented contract (DESIGN.md 3.3) — an UNGUARDED entry point (assign, builder edit, shared assign)
-    applied unlocked to a handle that is not valid at that moment — or `-1`. The generator cannot know which raw
+    applied unlocked to a handle that is not valid at that moment, or a `cleararch` of a component set that an archetype
+    with shared values has (also an empty one) — or `-1`. The generator cannot know which raw
     handle patterns alias live entities (ids are handed out by the library); the model, which is tied to the
     library, can. Histories are truncated before such an op, never "repaired". -/
 namespace Mustache.Driver.WorldContract
@@ -12,6 +13,8 @@ def violates (s : St) (ws : List String) : Bool :=
   | some (.assign _ e c _) => !s.w.isLocked && (!s.w.isValid e || s.w.hasComp e c)
   | some (.build _ e adds _) => !s.w.isLocked && (!s.w.isValid e || adds.any (fun p => s.w.hasComp e p.1))
   | some (.sassign e _ _) => !s.w.isValid e
+  -- clearArchetype is addressed by component set: it is only well defined when no archetype of that set carries shared values
+  | some (.clearArch mask) => s.w.archs.any (fun a => a.mask == mask && !a.shared.ids.isEmpty)
   | _ => false
 
 def stripThread (ws : List String) : List String :=
